@@ -186,6 +186,9 @@ theorem offered_accepted_fixed_criterion (p : Row × AccRow) (hp : p ∈ tableRo
 
 def u55_128 : Row := rows.getD 2 default
 
+/-- `u55_128` really is the Ethos-U55-128 row of the regenerated table -/
+theorem u55_128_is_row : u55_128 ∈ rows ∧ u55_128.name = "ethos-u55-128" := by decide
+
 /-- DESIGN.md section 8 #12: conv2d, int16, IFM 22×36×16 → OFM 20×34×16, 3×3 stride 1, quantization objects
     present with `scale_f32 = None` -/
 def findingOp : ApiOp :=
